@@ -10,6 +10,7 @@ import (
 	"go/types"
 	"math/big"
 	"strings"
+	"sync"
 
 	"golang.org/x/tools/go/ssa"
 )
@@ -185,7 +186,18 @@ func (m *Machine) visitInstr(fr *frame, instr ssa.Instruction) continuation {
 		fr.env[instr] = m.conv(instr.Type(), instr.X.Type(), fr.get(instr.X))
 
 	case *ssa.SliceToArrayPointer:
-		m.unsupported("SliceToArrayPointer")
+		// (*[N]T)(s): a pointer to an array that aliases the slice's backing store
+		sv, _ := fr.get(instr.X).(sliceV)
+		n := int(instr.Type().Underlying().(*types.Pointer).Elem().Underlying().(*types.Array).Len())
+		if n > sv.len {
+			m.rtPanic("cannot convert slice to array pointer: slice too short")
+		}
+		if sv.nil && n == 0 {
+			fr.env[instr] = (*Value)(nil)
+		} else {
+			var cell Value = arrayV(sv.a[sv.off : sv.off+n : sv.off+n])
+			fr.env[instr] = &cell
+		}
 
 	case *ssa.MakeInterface:
 		fr.env[instr] = Iface{T: instr.X.Type(), V: copyVal(fr.get(instr.X))}
@@ -460,6 +472,12 @@ func (m *Machine) callSSA(caller *frame, pos token.Pos, fn *ssa.Function, args [
 	if pi := prefixIntrinsic(name); pi != nil {
 		m.stubs[name]++
 		return pi(m, caller, fn, args)
+	}
+	if len(harnessStubs) > 0 {
+		if st := harnessStubs[sanitizeName(name)]; st != nil && st != fn {
+			m.stubs[name+" (harness stub)"]++
+			return m.callSSA(caller, pos, st, args, nil)
+		}
 	}
 	if fn.Blocks == nil {
 		if fn.Pkg != nil {
@@ -738,4 +756,22 @@ var skipInit = map[string]bool{
 	"github.com/spf13/afero": true, "vendor/golang.org/x/net/idna": true, "golang.org/x/net/idna": true,
 	"vendor/golang.org/x/text/unicode/norm": true, "golang.org/x/text/unicode/norm": true,
 	"vendor/golang.org/x/text/unicode/bidi": true, "golang.org/x/text/unicode/bidi": true,
+}
+
+var harnessStubs map[string]*ssa.Function
+
+var sanitized sync.Map
+
+func sanitizeName(name string) string {
+	if v, ok := sanitized.Load(name); ok {
+		return v.(string)
+	}
+	b := []byte(name)
+	for i, c := range b {
+		if !(c >= 'a' && c <= 'z' || c >= 'A' && c <= 'Z' || c >= '0' && c <= '9') {
+			b[i] = '_'
+		}
+	}
+	sanitized.Store(name, string(b))
+	return string(b)
 }
